@@ -28,4 +28,15 @@ theorem iNetX_accepted_payload_exact (t : State) (buf : Bytes) (h : (unpack t bu
   simp only [h', h'', if_false, if_true, ne_eq, ite_not]
   split <;> simp_all
 
+/-- witnesses (control 0x11000000, stream 0xDC, sequence 1, PTP 5 s / 6 ns, 2 payload bytes): length word 30 on a
+    30-byte buffer accepted and the payload returned whole; length word 31 / 29 on the same bytes rejected; the
+    same 30-declaring packet with a byte appended or removed rejected; a 27-byte buffer rejected -/
+example : (unpack fresh ([0x11,0,0,0, 0,0,0,0xDC, 0,0,0,1, 0,0,0,30, 0,0,0,5, 0,0,0,6, 0,0,0,0] ++ [7,8])).2 = .ok () := by rfl
+example : (unpack fresh ([0x11,0,0,0, 0,0,0,0xDC, 0,0,0,1, 0,0,0,30, 0,0,0,5, 0,0,0,6, 0,0,0,0] ++ [7,8])).1.payload = [7,8] := by rfl
+example : (unpack fresh ([0x11,0,0,0, 0,0,0,0xDC, 0,0,0,1, 0,0,0,31, 0,0,0,5, 0,0,0,6, 0,0,0,0] ++ [7,8])).2 = .error .value := by rfl
+example : (unpack fresh ([0x11,0,0,0, 0,0,0,0xDC, 0,0,0,1, 0,0,0,29, 0,0,0,5, 0,0,0,6, 0,0,0,0] ++ [7,8])).2 = .error .value := by rfl
+example : (unpack fresh ([0x11,0,0,0, 0,0,0,0xDC, 0,0,0,1, 0,0,0,30, 0,0,0,5, 0,0,0,6, 0,0,0,0] ++ [7,8,9])).2 = .error .value := by rfl
+example : (unpack fresh ([0x11,0,0,0, 0,0,0,0xDC, 0,0,0,1, 0,0,0,30, 0,0,0,5, 0,0,0,6, 0,0,0,0] ++ [7])).2 = .error .value := by rfl
+example : (unpack fresh [0x11,0,0,0, 0,0,0,0xDC, 0,0,0,1, 0,0,0,27, 0,0,0,5, 0,0,0,6, 0,0,0]).2 = .error .value := by rfl
+
 end Acra.Props.C09
